@@ -54,6 +54,7 @@ pub fn run_property(ctx: &Ctx, rep: &mut Report) -> Result<(), String> {
         "C14" => props::c14::run(ctx, rep),
         "C15" => props::c15::run(ctx, rep),
         "C16" => props::c16::run(ctx, rep),
+        "C17" => props::c17::run(ctx, rep),
         "C18" => props::c18::run(ctx, rep),
         "C19" => props::c19::run(ctx, rep),
         "C20" => {
@@ -82,6 +83,7 @@ pub fn replay_case(case: &Value, ctx: &Ctx) -> Result<Vec<Violation>, String> {
         "C14" => Ok(props::c14::replay(case, ctx)),
         "C15" => Ok(props::c15::replay(case, ctx)),
         "C16" => Ok(props::c16::replay(case, ctx)),
+        "C17" => Ok(props::c17::replay(case, ctx)),
         "C18" => Ok(props::c18::replay(case, ctx)),
         "C19" => Ok(props::c19::replay(case)),
         "C20" if case["kind"] == "project" => Ok(props::maps::replay(case, ctx, "C20")),
